@@ -1,1 +1,336 @@
-/-! C11 — property theorems (stub: nothing proved yet). -/
+import B6.Lemmas.RecordsFeatures
+import B6.Lemmas.RecordsTokenMap
+/-!
+# C11 — every compact record kind round-trips through its codec
+
+Model: `B6/Model/Records.lean` (+ `RecordsTokenMap.lean`).  For every record kind `R`
+
+    R.marshal … r = some bs  →  R.dec … (bs ++ rest) = some (r', bs.length)        for every `rest`
+
+with `r' = r`, or `r' = r.sorted` for the three records whose `Marshal` sorts reference lists in place
+(`PointReferences`, `FullPoint`, `Path`).  `marshal = some bs` says the Go `Marshal` does not panic
+(`EncodeValueType`, "Can't encode role") — the `…_marshal_total` theorems say exactly when that is; the *same*
+primary namespace / `Namespaces` value is used on both sides; `bs.length` is what `Unmarshal` must return
+(byte-exact consumption, whatever follows the record).  Field values are unrestricted: every `uint64`
+reference value (bit 63 included), every delta (the zigzag of a 64-bit difference, explicit form when it has
+bit 63), every `int32` coordinate, every `uint16` namespace, empty lists.
+
+Domain restrictions that are part of the statement (and literally the driver's `inDomain` predicate):
+* mixed lists / mixed area polygons are sums: an element is a reference *or* a lat/lng (`canonical`) — the
+  encoding writes only the half the flag bit selects (`mixed_needs_canonical_counterexample`);
+* a relation member's type is one of point/path/area/relation (`Member.typeOk`): the role word has
+  `FeatureTypeBits = 2` bits for it (`member_wide_type_counterexample`).
+-/
+namespace B6.Props.C11
+open B6.Model.Records B6.Model.Varint
+
+/-- unfolding `marshal = some bs` -/
+theorem of_marshal {ok : Bool} {enc bs : Bytes} (h : (if ok = true then some enc else none) = some bs) :
+    ok = true ∧ enc = bs := by
+  cases ok
+  · simp at h
+  · simpa using h
+
+/-! ## when `Marshal` succeeds -/
+
+theorem lenOk_iff (e l : Nat) (he : e ≤ 2) : lenOk e l = true ↔ (if e = 0 then l < 2 ^ 61 else l < 2 ^ 60) := by
+  simp only [lenOk, Bool.and_eq_true, decide_eq_true_eq, valueTypeOk_iff]
+  rcases e with _ | _ | _ | e
+  · simp only [encodeGeometry]; simp; omega
+  · simp only [encodeGeometry]; simp; omega
+  · simp only [encodeGeometry]; simp; omega
+  · omega
+
+/-- a reference list marshals iff it has fewer than 2^61 elements (no real slice has more) -/
+theorem references_marshal_total (p : BitVec 16) (rs : List Reference) :
+    (References.marshal p rs).isSome = true ↔ rs.length < 2 ^ 61 := by
+  have := lenOk_iff 0 rs.length (by omega)
+  simp only [if_true] at this
+  simp only [References.marshal, References.ok, ← this]
+  by_cases h : lenOk 0 rs.length = true <;> simp [h]
+
+/-- `LatLng.Marshal` never panics -/
+theorem latlng_marshal_total (ll : LatLng) : ll.marshal = some ll.enc := by
+  simp [LatLng.marshal, latlng_ok]
+
+/-- an `Int` tag value marshals iff it is in `[0, 2^62)` (as a `uint64`) -/
+theorem int_value_ok_iff (v : BitVec 64) : (Value.int v).ok = true ↔ v.toNat < 2 ^ 62 := by
+  simp [Value.ok, valueTypeOk_iff]
+
+/-- a member marshals iff its role is in `[0, 2^62)`; otherwise "Can't encode role" -/
+theorem member_ok_iff (m : Member) : m.ok = true ↔ m.role.toNat < 2 ^ 62 := by
+  have := m.role.isLt
+  simp only [Member.ok, beq_iff_eq]
+  omega
+
+/-! ## the round-trip theorems -/
+
+theorem reference_roundtrip (p : BitVec 16) (r : Reference) (rest : Bytes) :
+    Reference.dec p (Reference.enc p r ++ rest) = some (r, (Reference.enc p r).length) :=
+  rt_reference p r rest
+
+example : Reference.enc 8193#16 ⟨8193#16, 42#64⟩ = [84] ∧ Reference.enc 8193#16 ⟨8193#16, (2 ^ 63 + 1 : Nat)⟩ ≠ [] ∧
+    Reference.enc 8193#16 ⟨24579#16, 42#64⟩ = [135, 128, 3, 42] := by decide
+
+theorem references_roundtrip (p : BitVec 16) (rs : List Reference) (bs : Bytes)
+    (h : References.marshal p rs = some bs) (rest : Bytes) :
+    References.dec p (bs ++ rest) = some (rs, bs.length) := by
+  obtain ⟨hok, rfl⟩ := of_marshal h
+  exact rt_references p rs hok rest
+
+/-- a list with a bit-63 value, a 2^64-1 → 0 wrap-around delta, a delta of 2^62 and a foreign namespace -/
+example : (References.marshal 8193#16 [⟨8193#16, (2 ^ 63 : Nat)⟩, ⟨8193#16, 0#64⟩, ⟨8193#16, (2 ^ 64 - 1 : Nat)⟩,
+    ⟨8193#16, (2 ^ 62 : Nat)⟩, ⟨24579#16, (2 ^ 63 : Nat)⟩, ⟨0#16, 0#64⟩]).isSome = true := by decide
+
+theorem latlng_roundtrip (ll : LatLng) (bs : Bytes) (h : ll.marshal = some bs) (rest : Bytes) :
+    LatLng.dec (bs ++ rest) = some (ll, bs.length) := by
+  obtain ⟨_, rfl⟩ := of_marshal h
+  exact rt_latlng ll rest
+
+example : (LatLng.marshal ⟨BitVec.ofInt 32 (-2147483648), BitVec.ofInt 32 2147483647⟩).isSome = true := by decide
+
+theorem latlngs_roundtrip (lls : List LatLng) (bs : Bytes) (h : LatLngs.marshal lls = some bs) (rest : Bytes) :
+    LatLngs.dec (bs ++ rest) = some (lls, bs.length) := by
+  obtain ⟨hok, rfl⟩ := of_marshal h
+  exact rt_latlngs lls hok rest
+
+/-- deltas that overflow `int32` (min → max → min) -/
+example : (LatLngs.marshal [⟨BitVec.ofInt 32 (-2147483648), 0#32⟩, ⟨BitVec.ofInt 32 2147483647, 1#32⟩,
+    ⟨BitVec.ofInt 32 (-2147483648), BitVec.ofInt 32 (-1)⟩]).isSome = true := by decide
+
+theorem bits_roundtrip (b : List Bool) (bs : Bytes) (h : Bits.marshal b = some bs) (rest : Bytes) :
+    Bits.dec (bs ++ rest) = some (b, bs.length) := by
+  obtain ⟨hok, rfl⟩ := of_marshal h
+  exact rt_bits b hok rest
+
+example : Bits.marshal [true, false, true, true, false, false, false, true, true, true] = some [10, 141, 3] := by decide
+
+theorem references_and_latlngs_roundtrip (p : BitVec 16) (g : List RefLL) (hc : ∀ x ∈ g, x.canonical = true)
+    (bs : Bytes) (h : RefLLs.marshal p g = some bs) (rest : Bytes) :
+    RefLLs.dec p (bs ++ rest) = some (g, bs.length) := by
+  obtain ⟨hok, rfl⟩ := of_marshal h
+  exact rt_refLLs p g hok hc rest
+
+def mixedExample : List RefLL :=
+  [⟨⟨8193#16, 7#64⟩, LatLng.zero⟩, ⟨Reference.invalid, ⟨5#32, BitVec.ofInt 32 (-6)⟩⟩, ⟨⟨8193#16, (2 ^ 63 : Nat)⟩, LatLng.zero⟩,
+   ⟨Reference.invalid, LatLng.zero⟩, ⟨⟨3#16, 9#64⟩, LatLng.zero⟩]
+example : (∀ x ∈ mixedExample, x.canonical = true) ∧ (RefLLs.marshal 8193#16 mixedExample).isSome = true := by decide
+
+theorem tags_roundtrip (tns : BitVec 16) (ts : List Tag) (hc : Tags.canonical ts = true)
+    (bs : Bytes) (h : Tags.marshal tns ts = some bs) (rest : Bytes) :
+    Tags.dec tns (bs ++ rest) = some (ts, bs.length) := by
+  obtain ⟨hok, rfl⟩ := of_marshal h
+  exact rt_tags tns ts hok hc rest
+
+/-- one tag of every value kind, a negative key -/
+def tagsExample : List Tag :=
+  [⟨1#64, .int 5#64⟩, ⟨BitVec.ofInt 64 (-1), .point ⟨1#32, 2#32⟩⟩, ⟨3#64, .latlngs [⟨1#32, 2#32⟩, ⟨0#32, 0#32⟩]⟩,
+   ⟨4#64, .refs [⟨8193#16, 9#64⟩, ⟨3#16, 1#64⟩]⟩, ⟨5#64, .mixed mixedExample⟩, ⟨6#64, .refs []⟩]
+example : Tags.canonical tagsExample = true ∧ (Tags.marshal 8193#16 tagsExample).isSome = true := by decide
+
+theorem members_roundtrip (p : BitVec 16) (ms : List Member) (ht : ∀ m ∈ ms, m.typeOk = true)
+    (bs : Bytes) (h : Members.marshal p ms = some bs) (rest : Bytes) :
+    Members.dec p (bs ++ rest) = some (ms, bs.length) := by
+  obtain ⟨hok, rfl⟩ := of_marshal h
+  exact rt_members p ms hok ht rest
+
+def membersExample : List Member :=
+  [⟨0#64, 17#64, ⟨8193#16, 5#64⟩⟩, ⟨3#64, (2 ^ 62 - 1 : Nat), ⟨24579#16, (2 ^ 64 - 1 : Nat)⟩⟩, ⟨2#64, 0#64, ⟨0#16, 0#64⟩⟩]
+example : (∀ m ∈ membersExample, m.typeOk = true) ∧ (Members.marshal 8193#16 membersExample).isSome = true := by decide
+
+theorem delta_ints_roundtrip (vs : List (BitVec 64)) (rest : Bytes) :
+    DeltaInts.dec vs.length (DeltaInts.enc vs ++ rest) = some (vs, (DeltaInts.enc vs).length) :=
+  rt_deltaInts vs rest
+
+theorem area_geometry_references_roundtrip (p : BitVec 16) (a : AreaGeomRefs) (bs : Bytes)
+    (h : AreaGeomRefs.marshal p a = some bs) (rest : Bytes) :
+    AreaGeomRefs.dec p (bs ++ rest) = some (a, bs.length) := by
+  obtain ⟨hok, rfl⟩ := of_marshal h
+  exact rt_areaGeomRefs p a hok rest
+
+def agrExample : AreaGeomRefs := ⟨[1#64, 2#64, 3#64], [⟨8193#16, 10#64⟩, ⟨8193#16, 11#64⟩, ⟨8193#16, 12#64⟩, ⟨8193#16, 13#64⟩]⟩
+example : AreaGeomRefs.marshal 8193#16 agrExample = some [6, 2, 2, 2, 34, 40, 4, 4, 4] := by decide
+
+theorem polygon_geometry_latlngs_roundtrip (q : PolygonLL) (bs : Bytes) (h : q.marshal = some bs) (rest : Bytes) :
+    PolygonLL.dec (bs ++ rest) = some (q, bs.length) := by
+  obtain ⟨hok, rfl⟩ := of_marshal h
+  exact rt_polygonLL q hok rest
+
+theorem area_geometry_latlngs_roundtrip (ps : List PolygonLL) (bs : Bytes)
+    (h : AreaGeomLL.marshal ps = some bs) (rest : Bytes) :
+    AreaGeomLL.dec (bs ++ rest) = some (ps, bs.length) := by
+  obtain ⟨hok, rfl⟩ := of_marshal h
+  exact rt_areaGeomLL ps hok rest
+
+def pllExample : PolygonLL := ⟨[3#64], [⟨1#32, 1#32⟩, ⟨2#32, 1#32⟩, ⟨2#32, 2#32⟩, ⟨5#32, 5#32⟩, ⟨6#32, 5#32⟩, ⟨6#32, 6#32⟩]⟩
+example : (AreaGeomLL.marshal [pllExample, PolygonLL.zero, pllExample]).isSome = true := by decide
+
+theorem area_geometry_mixed_roundtrip (p : BitVec 16) (ps : List PolygonMixed) (hc : ∀ q ∈ ps, q.canonical = true)
+    (bs : Bytes) (h : AreaGeomMixed.marshal p ps = some bs) (rest : Bytes) :
+    AreaGeomMixed.dec p (bs ++ rest) = some (ps, bs.length) := by
+  obtain ⟨hok, rfl⟩ := of_marshal h
+  exact rt_areaGeomMixed p ps hok hc rest
+
+def agmExample : List PolygonMixed := [⟨[⟨8193#16, 10#64⟩, ⟨3#16, 11#64⟩], PolygonLL.zero⟩, ⟨[], pllExample⟩, ⟨[], PolygonLL.zero⟩]
+example : (∀ q ∈ agmExample, q.canonical = true) ∧ (AreaGeomMixed.marshal 8193#16 agmExample).isSome = true := by decide
+
+/-- `UnmarshalAreaGeometry` (the decoder `Area.Unmarshal` uses) on the output of any of the three `Marshal`s -/
+theorem unmarshal_area_geometry_roundtrip (p : BitVec 16) (g : AreaGeometry) (hok : g.ok = true)
+    (hc : g.canonical = true) (rest : Bytes) :
+    AreaGeometry.dec p (g.enc p ++ rest) = some (g, (g.enc p).length) :=
+  rt_areaGeometry p g hok hc rest
+
+example : (AreaGeometry.mixed agmExample).ok = true ∧ (AreaGeometry.mixed agmExample).canonical = true ∧
+    (AreaGeometry.refs agrExample).ok = true ∧ (AreaGeometry.latlngs [pllExample]).ok = true := by decide
+
+theorem common_point_roundtrip (n : Namespaces) (c : CommonPoint) (hc : Tags.canonical c.tags = true)
+    (bs : Bytes) (h : c.marshal n = some bs) (rest : Bytes) :
+    CommonPoint.dec n (bs ++ rest) = some (c, bs.length) := by
+  obtain ⟨hok, rfl⟩ := of_marshal h
+  exact rt_commonPoint n c hok hc rest
+
+def nssExample : Namespaces := ⟨1#16, 2#16, 2#16, 3#16⟩
+example : (CommonPoint.marshal nssExample ⟨tagsExample, ⟨tnPath nssExample, 77#64⟩⟩).isSome = true := by decide
+
+theorem point_references_roundtrip (n : Namespaces) (p : PointReferences) (bs : Bytes)
+    (h : p.marshal n = some bs) (rest : Bytes) :
+    PointReferences.dec n (bs ++ rest) = some (p.sorted, bs.length) := by
+  obtain ⟨hok, rfl⟩ := of_marshal h
+  exact rt_pointReferences n p hok rest
+
+/-- what "sorted" means: `sortRefs l` is the permutation of `l` ordered by `References.Less` -/
+theorem sort_refs_spec (l : List Reference) :
+    (sortRefs l).Perm l ∧ (sortRefs l).Pairwise (fun a b => Reference.le a b = true) :=
+  ⟨sortRefs_perm l, sortRefs_sorted l⟩
+
+example : sortRefs [⟨3#16, 5#64⟩, ⟨2#16, 9#64⟩, ⟨3#16, 1#64⟩, ⟨2#16, 9#64⟩] = [⟨2#16, 9#64⟩, ⟨2#16, 9#64⟩, ⟨3#16, 1#64⟩, ⟨3#16, 5#64⟩] := by
+  decide
+
+theorem full_point_roundtrip (n : Namespaces) (p : FullPoint) (hc : Tags.canonical p.tags = true)
+    (bs : Bytes) (h : p.marshal n = some bs) (rest : Bytes) :
+    FullPoint.dec n (bs ++ rest) = some (p.sorted, bs.length) := by
+  obtain ⟨hok, rfl⟩ := of_marshal h
+  exact rt_fullPoint n p hok hc rest
+
+theorem path_roundtrip (n : Namespaces) (p : Path) (hc : Tags.canonical p.tags = true)
+    (bs : Bytes) (h : p.marshal n = some bs) (rest : Bytes) :
+    Path.dec n (bs ++ rest) = some (p.sorted, bs.length) := by
+  obtain ⟨hok, rfl⟩ := of_marshal h
+  exact rt_path n p hok hc rest
+
+def pathExample : Path := ⟨tagsExample, [⟨tnArea nssExample, 9#64⟩, ⟨tnArea nssExample, 4#64⟩, ⟨5#16, 1#64⟩], [⟨tnRelation nssExample, 9#64⟩, ⟨tnRelation nssExample, 4#64⟩]⟩
+example : (pathExample.marshal nssExample).isSome = true ∧ pathExample.sorted ≠ pathExample := by decide
+
+theorem area_roundtrip (n : Namespaces) (a : Area) (hc : Tags.canonical a.tags = true)
+    (hg : a.polygons.canonical = true) (bs : Bytes) (h : a.marshal n = some bs) (rest : Bytes) :
+    Area.dec n (bs ++ rest) = some (a, bs.length) := by
+  obtain ⟨hok, rfl⟩ := of_marshal h
+  exact rt_area n a hok hc hg rest
+
+def areaExample : Area := ⟨tagsExample, .mixed agmExample, [⟨tnRelation nssExample, 51#64⟩, ⟨tnRelation nssExample, 60#64⟩, ⟨tnPath nssExample, 3#64⟩]⟩
+example : (areaExample.marshal nssExample).isSome = true := by decide
+
+/-- relations with the member list in every primary namespace `t` (point, path, area, relation) -/
+theorem relation_roundtrip (t : BitVec 64) (n : Namespaces) (r : Relation) (hc : Tags.canonical r.tags = true)
+    (ht : ∀ m ∈ r.members, m.typeOk = true) (bs : Bytes) (h : r.marshal t n = some bs) (rest : Bytes) :
+    Relation.dec t n (bs ++ rest) = some (r, bs.length) := by
+  unfold Relation.marshal at h
+  unfold Relation.dec
+  cases hm : memberPrimary n t with
+  | none => simp [hm] at h
+  | some mp =>
+    simp only [hm] at h ⊢
+    obtain ⟨hok, rfl⟩ := of_marshal h
+    exact rt_relationWith mp n r hok hc ht rest
+
+def relationExample : Relation := ⟨[⟨1#64, .int 5#64⟩], membersExample, [⟨tnRelation nssExample, 5#64⟩]⟩
+example : (Relation.marshal 0#64 nssExample relationExample).isSome = true ∧ (Relation.marshal 1#64 nssExample relationExample).isSome = true ∧
+    (Relation.marshal 2#64 nssExample relationExample).isSome = true ∧ (Relation.marshal 3#64 nssExample relationExample).isSome = true ∧
+    Relation.marshal 4#64 nssExample relationExample = none := by
+  decide
+
+theorem namespaces_roundtrip (n : Namespaces) (rest : Bytes) :
+    Namespaces.dec (n.enc ++ rest) = some (n, 8) := by
+  have := rt_namespaces n rest
+  have hl : n.enc.length = 8 := by
+    simp [Namespaces.enc, putU16, marshalUint64_length]
+  rwa [hl] at this
+
+theorem string_roundtrip (s : Bytes) (bs : Bytes) (h : Str.marshal s = some bs) (rest : Bytes) :
+    Str.dec (bs ++ rest) = some (s, bs.length) := by
+  obtain ⟨hok, rfl⟩ := of_marshal h
+  exact rt_str s hok rest
+
+theorem namespace_index_roundtrip (x : NamespaceIndex) (rest : Bytes) :
+    NamespaceIndex.dec (x.enc ++ rest) = some (x, x.enc.length) :=
+  rt_namespaceIndex x rest
+
+theorem namespace_indices_roundtrip (xs : List NamespaceIndex) (bs : Bytes)
+    (h : NamespaceIndices.marshal xs = some bs) (rest : Bytes) :
+    NamespaceIndices.dec (bs ++ rest) = some (xs, bs.length) := by
+  obtain ⟨hok, rfl⟩ := of_marshal h
+  exact rt_namespaceIndices xs hok rest
+
+theorem posting_list_header_roundtrip (hd : PostingListHeader) (bs : Bytes)
+    (h : hd.marshal = some bs) (rest : Bytes) :
+    PostingListHeader.dec (bs ++ rest) = some (hd, bs.length) := by
+  obtain ⟨hok, rfl⟩ := of_marshal h
+  exact rt_postingListHeader hd hok rest
+
+example : (PostingListHeader.marshal ⟨[104, 105], 3#64, [⟨8193#16, 0#64⟩, ⟨24579#16, 64#64⟩]⟩).isSome = true := by decide
+
+/-! ## TokenMap -/
+
+open B6.Model.RecordsTokenMap in
+/-- `tokenmap_find`, encoder level: after any sequence of `TokenMapEncoder.Add` calls (every resize included)
+each added `(token, index)` is in the bucket `HashString(token) % len(buckets)`, i.e. the bucket
+`FindPossibleIndices(token)` selects … -/
+theorem tokenmap_added_in_hash_bucket (adds : List Entry) (y : Entry) (hy : y ∈ adds) :
+    ∃ hb : hashString y.1 % (addAll adds).buckets.length < (addAll adds).buckets.length,
+      y ∈ (addAll adds).buckets[hashString y.1 % (addAll adds).buckets.length] :=
+  added_in_hash_bucket adds y hy
+
+open B6.Model.RecordsTokenMap in
+/-- … and the iterator over that bucket's bytes returns exactly the bucket's indices. -/
+theorem tokenmap_bucket_drain (l : List Entry) : drain (itemBytes l).length (itemBytes l) = some (l.map (·.2)) :=
+  drain_itemBytes l _ (Nat.le_refl _)
+
+open B6.Model.RecordsTokenMap in
+example : (addAll [([97], 0#64), ([98], 1#64), ([99], 2#64), ([97], 3#64)]).buckets.length = 8 ∧
+    findPossibleIndices (encode (addAll [([97], 0#64), ([98], 1#64), ([99], 2#64), ([97], 3#64)]) ++ [255]) [97] = some [0#64, 3#64] := by
+  decide
+
+/-! ## the code before the repairs -/
+
+/-- `AreaGeometryReferences.Unmarshal` before fixes/C11-area-geometry-consumed.patch: the value comes back, but
+the reported length is the polygon count + body (3), not the 4 bytes `Marshal` wrote. -/
+theorem area_geometry_refs_consumed_counterexample :
+    AreaGeomRefs.marshal 8193#16 ⟨[], [⟨8193#16, 42#64⟩]⟩ = some [0, 10, 168, 1] ∧
+    AreaGeomRefs.decOld 8193#16 [0, 10, 168, 1] = some (⟨[], [⟨8193#16, 42#64⟩]⟩, 3) ∧
+    AreaGeomRefs.dec 8193#16 [0, 10, 168, 1] = some (⟨[], [⟨8193#16, 42#64⟩]⟩, 4) := by decide
+
+/-- the same slip in `AreaGeometryLatLngs.Unmarshal`: three empty polygons are 7 bytes, 9 were reported. -/
+theorem area_geometry_latlngs_consumed_counterexample :
+    AreaGeomLL.marshal [PolygonLL.zero, PolygonLL.zero, PolygonLL.zero] = some [13, 0, 6, 0, 6, 0, 6] ∧
+    AreaGeomLL.decOld [13, 0, 6, 0, 6, 0, 6] = some ([PolygonLL.zero, PolygonLL.zero, PolygonLL.zero], 9) ∧
+    AreaGeomLL.dec [13, 0, 6, 0, 6, 0, 6] = some ([PolygonLL.zero, PolygonLL.zero, PolygonLL.zero], 7) := by decide
+
+/-- `Area.Marshal` before fixes/C02-area-relations-primary.patch wrote the relations against the path namespace
+while `Area.Unmarshal` reads them against the relation namespace: relation 51 comes back as relation
+`zigzagDecode 51 = -26`. -/
+theorem area_relations_primary_counterexample :
+    (Area.dec ⟨1#16, 2#16, 2#16, 3#16⟩ (Area.encOld ⟨1#16, 2#16, 2#16, 3#16⟩ ⟨[], .refs ⟨[], []⟩, [⟨24579#16, 51#64⟩]⟩)).map (·.1.relations)
+      = some [⟨24579#16, BitVec.ofInt 64 (-26)⟩] := by decide
+
+/-! ## why the domain restrictions are needed (these are not defects: the values are not records the builder makes) -/
+
+/-- a mixed element carrying both a reference and a lat/lng loses the lat/lng -/
+theorem mixed_needs_canonical_counterexample :
+    RefLLs.dec 8193#16 (RefLLs.enc 8193#16 [⟨⟨8193#16, 5#64⟩, ⟨1#32, 2#32⟩⟩]) = some ([⟨⟨8193#16, 5#64⟩, LatLng.zero⟩], 4) := by decide
+
+/-- a member of type 5 (collection) comes back as type 1 (path) with role 5 instead of 4: the type is OR-ed into
+a 2-bit field -/
+theorem member_wide_type_counterexample :
+    (Members.dec 0#16 (Members.enc 0#16 [⟨5#64, 4#64, ⟨0#16, 0#64⟩⟩])).map (·.1) = some [⟨1#64, 5#64, ⟨0#16, 0#64⟩⟩] := by decide
+
+end B6.Props.C11
